@@ -33,6 +33,8 @@ let fmt16_o (b : z) : z list =
 let kind = Array.make 64 ' '
 let world = ref empty_world
 let hid = ref "?"
+let gst = ref g_start
+let pending_argv : z list list option ref = ref None
 let saveok = Array.make 8 false   (* sc_options_save is legal only after a successful parse / load_args *)
 
 let dump () =
@@ -117,9 +119,26 @@ let () = iter_lines (fun line ->
           let l = List.tl l in
           let l = (match l with "EV" :: r -> r | _ -> failwith "parse line without EV record") in
           let (evs, rest) = split_bar l [] in
+          let (rest, orig) = split_bar rest [] in
+          pending_argv := (if orig = [] then None else Some (List.map bytes_of_tok orig));
           (match rest with
            | oi :: _ :: av ->
-             let s = run_op op (OParse (nat_of_int o, List.map event_of evs, z_of_int (int_of_string oi), List.map bytes_of_tok av)) in
+             (* validation of GetoptModel.v: the same number of calls from the reset state must give the recorded
+                events, the recorded final optind and the recorded final order of argv *)
+             let its = (get_opts !world (nat_of_int o)).o_items in
+             let evl = List.map event_of evs in
+             let avl = List.map bytes_of_tok av in
+             let gm =
+               (match !pending_argv with
+                | None -> ""
+                | Some argv0 ->
+                  let ((mev, g'), argv') = getopt_calls (nat_of_int (List.length evl)) (shorts_of its) (longs_of its Z0) argv0 (g_reset !gst) in
+                  gst := g';
+                  let ended = (match List.rev evl with GEnd :: _ -> true | _ -> false) in
+                  if mev <> evl then " GETOPT_MODEL_EVENTS"
+                  else if ended && (int_of_z g'.g_optind <> int_of_string oi || argv' <> avl) then " GETOPT_MODEL_FINAL"
+                  else "") in
+             let s = run_op op (OParse (nat_of_int o, evl, z_of_int (int_of_string oi), avl)) ^ gm in
              saveok.(o) <- (int_of_z (get_opts !world (nat_of_int o)).o_first >= 0); s
            | _ -> failwith "parse record")
         | "load" -> run_op op (OLoad (nat_of_int (int_of_string a.(0)), bytes_of_tok a.(1)))
